@@ -605,6 +605,43 @@ func mainSliceSpec() {
 			samples = append(samples, "string slice "+fmt.Sprintf("%q", s)+" x all functions")
 		}
 	})
+	// wide alphabet: many DISTINCT values, early values coming back late, duplicates in runs
+	// (behaviour that depends on how many different elements were seen so far)
+	for n := 1; n <= 20; n++ {
+		base := make([]int, n)
+		for i := range base {
+			base[i] = i * 3 % 41
+		}
+		fams := [][]int{append([]int{}, base...)}
+		rev := make([]int, n)
+		for i := range base {
+			rev[i] = base[n-1-i]
+		}
+		fams = append(fams, rev)
+		for k := 0; k < n; k += 1 + n/6 {
+			fams = append(fams, append(append([]int{}, base...), base[k]))                     // an early value repeats at the end
+			fams = append(fams, append(append([]int{}, base...), base[k], base[n-1], base[k])) // and again
+		}
+		dbl := append(append([]int{}, base...), base...)
+		fams = append(fams, dbl)
+		for _, s := range fams {
+			nSlices++
+			checkAll(c, fi, s, smallI[:3])
+		}
+		if n == 12 {
+			samples = append(samples, "wide-alphabet int slice "+fmt.Sprint(fams[2]))
+		}
+	}
+	for n := 1; n <= 14; n++ {
+		base := make([]string, n)
+		for i := range base {
+			base[i] = fmt.Sprintf("s%02d", (i*5)%17)
+		}
+		for k := 0; k < n; k += 1 + n/4 {
+			nSlices++
+			checkAll(c, fs, append(append([]string{}, base...), base[k], base[0]), smallS[:3])
+		}
+	}
 	// random longer slices: sorted, reversed, many duplicates
 	r := newRng(uint64(seed))
 	for k := 0; k < nRandom; k++ {
